@@ -2040,6 +2040,11 @@ func (s *SelectStatement) rewriteWithoutTimeDimensions() string {
 		}
 	})
 
+	// The caller appends "AND <time range>" to the text. OR is the only operator
+	// that binds looser than AND, so an OR at the top has to keep its operands together.
+	if b, ok := n.(*BinaryExpr); ok && b.Op == OR {
+		return "(" + n.String() + ")"
+	}
 	return n.String()
 }
 
